@@ -598,9 +598,28 @@ class Body:
                         e.pop(s_.lhs.local, None)
                     continue
                 l = s_.lhs.local
-                if l not in bl:
-                    continue
                 rv = s_.rv
+                # enum variants: `x = Enum::V(..)`, copies / moves of x, `d = discriminant(x)`
+                if rv.k == "aggr" and rv.j.get("ak") == "adt" and rv.j.get("is_enum"):
+                    vi = self._variant_index(rv.j.get("adt"), rv.j.get("variant"))
+                    if vi is None:
+                        e.pop(l, None)
+                    else:
+                        e[l] = ("V", vi)
+                    continue
+                if rv.k == "discr":
+                    pl = rv.place
+                    if not pl.proj and isinstance(e.get(pl.local), tuple):
+                        e[l] = ("I", e[pl.local][1])
+                    else:
+                        e.pop(l, None)
+                    continue
+                if rv.k == "use" and rv.ops[0].place is not None and not rv.ops[0].place.proj and isinstance(e.get(rv.ops[0].place.local), tuple):
+                    e[l] = e[rv.ops[0].place.local]
+                    continue
+                if l not in bl:
+                    e.pop(l, None)
+                    continue
                 v = None
                 if rv.k == "use":
                     o = rv.ops[0]
@@ -623,15 +642,31 @@ class Body:
                 e.pop(t.dest.local, None)
             succs = self.succ(x)
             if t.k == "switch" and t.discr.place is not None and not t.discr.place.proj and t.discr.place.local in e:
-                val = 1 if e[t.discr.place.local] else 0
-                tgt = dict(t.targets).get(val, t.otherwise)
-                succs = [y for y in succs if y == tgt]
+                ev = e[t.discr.place.local]
+                if isinstance(ev, tuple):
+                    val = ev[1] if ev[0] == "I" else None
+                else:
+                    val = 1 if ev else 0
+                if val is not None:
+                    tgt = dict(t.targets).get(val, t.otherwise)
+                    succs = [y for y in succs if y == tgt]
             env2 = frozenset(e.items())
             for y in succs:
                 if (x, y) in edges:
                     continue
                 st.append((y, env2))
         return seen
+
+    def _variant_index(self, adt, name):
+        known = {("std::option::Option", "None"): 0, ("std::option::Option", "Some"): 1, ("std::result::Result", "Ok"): 0, ("std::result::Result", "Err"): 1, ("std::ops::ControlFlow", "Continue"): 0, ("std::ops::ControlFlow", "Break"): 1}
+        if (adt, name) in known:
+            return known[(adt, name)]
+        a = self.prog.adts.get(adt)
+        if a and a.get("kind") == "Enum":
+            vs = [v["name"] for v in a["variants"]]
+            if name in vs:
+                return vs.index(name)
+        return None
 
     def _plain_reach_avoiding(self, edges, start=0):
         seen = set()
